@@ -230,7 +230,11 @@ func runC10(c *Ctx) (int, error) {
 		return res, msg, f
 	}
 	skippedOpen := 0
+	hung := func() bool { return timeouts >= 3 }
 	for _, ic := range icases {
+		if hung() {
+			break
+		}
 		// an unterminated comment is closed by the "*/" of a later block comment: not the error the model means
 		open := false
 		closed := false
@@ -297,6 +301,9 @@ func runC10(c *Ctx) (int, error) {
 			"defs": got, "wdefs": want, "imports": len(f.Imports), "wimports": ic.Imports, "text": text, "lexerr": lexerr, "reason": reason})
 	}
 	for _, toks := range tcases {
+		if hung() {
+			break
+		}
 		var b strings.Builder
 		lex := false
 		for i, t := range toks {
@@ -344,6 +351,9 @@ func runC10(c *Ctx) (int, error) {
 	}
 	// (d) [flags] member expressions over operands and operators, in an unsigned and a signed enum
 	for _, ex := range ecases {
+		if hung() {
+			break
+		}
 		for _, base := range []string{"", " : int16", " : int64"} {
 			appendTest("[flags]\nenum E"+base+" {\n\tA = 1;\n\tB = "+strings.Join(ex, " ")+";\n}\n", false, "expr")
 		}
@@ -351,6 +361,9 @@ func runC10(c *Ctx) (int, error) {
 	// (e) every token-prefix of valid schemas (a definition cut short must not swallow what follows)
 	nprefix := 0
 	for ci, pc := range pcases {
+		if hung() {
+			break
+		}
 		if pc.Part != "seq" && (ci+c.Seed)%5 != 0 {
 			continue
 		}
@@ -366,6 +379,9 @@ func runC10(c *Ctx) (int, error) {
 	boom := errors.New("boom: injected read failure")
 	nfault := 0
 	for ci, pc := range pcases {
+		if hung() {
+			break
+		}
 		if pc.Part != "seq" && (ci+c.Seed)%6 != 0 {
 			continue
 		}
@@ -381,6 +397,9 @@ func runC10(c *Ctx) (int, error) {
 						continue
 					}
 					fr := &failingReader{data: []byte(text), k: k, err: e, style: style}
+					if hung() {
+						break
+					}
 					res, _ := guarded(5*time.Second, func() error { _, _, err := bebop.ReadFile(fr); return err })
 					if res == "timeout" {
 						timeouts++
@@ -391,6 +410,17 @@ func runC10(c *Ctx) (int, error) {
 			}
 		}
 	}
+	if hung() {
+		// ReadFile calls that never return keep spinning (and allocating) in this process: judge only them, at once, and leave
+		var only []map[string]interface{}
+		for _, e := range events {
+			if e["res"] == "timeout" || e["res2"] == "timeout" {
+				only = append(only, e)
+			}
+		}
+		events = only
+		fmt.Println("ReadFile did not return on some inputs: the run is cut short and only those observations are judged")
+	}
 	// judge
 	devs := c.OpenDevs("C10")
 	dummy := []*parseCase{{Part: "x", Ci: 1}}
@@ -399,7 +429,7 @@ func runC10(c *Ctx) (int, error) {
 		return 2, infra("%v", err)
 	}
 	reportParseVerdicts(c, vs, repeatCase(dummy[0], 1), events, "c10")
-	samples := []interface{}{events[0], events[len(icases)+len(tcases)/2], events[len(events)-1]}
+	samples := []interface{}{events[0], events[len(events)/2], events[len(events)-1]}
 	cov := Coverage{"states": plr.Distinct + gtr.Distinct + gpr.Distinct + st, "transitions": plr.Generated + gtr.Generated + gpr.Generated + tr,
 		"traces_validated_against_impl": total["ok"] + total["known"], "events_total": len(events), "evaluations": len(events),
 		"distinct_nontrivial": len(icases) + len(tcases), "samples": samples,
